@@ -561,6 +561,13 @@ AGG_CORPUS = [
      "pixels": [[0, 0, 1], [0, 1, 2], [2, 3, 4]], "extra": [5, 7, 9], "k": 2, "chunksize": 10, "agg": "sum"},
     {"fn": "coarsen_cooler(columns=...)", "widths": [[3, 4, 5], [6]], "symmetric": False, "columns": ["count", "w"],
      "pixels": [[0, 0, 1], [1, 0, 2], [2, 3, 4], [3, 3, 1]], "extra": [5, -7, 9, 0], "k": 3, "chunksize": 1, "agg": "min"},
+    # a requested aggregation on `count` itself, API and CLI (--field count:agg=max --field w:agg=min)
+    {"fn": "coarsen_cooler(columns=...)", "widths": [[10] * 5, [10, 10, 3]], "symmetric": True, "columns": ["count", "w"],
+     "pixels": [[0, 0, 4], [0, 1, 9], [1, 1, 2], [1, 6, 5], [2, 7, 8], [3, 3, 1], [5, 5, 6], [5, 6, 7], [6, 6, 3]],
+     "extra": [5, -7, 9, 0, 3, 3, 8, -1, 2], "k": 2, "chunksize": 2, "agg": "min", "agg_count": "max"},
+    {"fn": "coarsen_cooler(columns=...)", "widths": [[10] * 5, [10, 10, 3]], "symmetric": True, "columns": ["count", "w"],
+     "pixels": [[0, 0, 4], [0, 1, 9], [1, 1, 2], [1, 6, 5], [2, 7, 8], [3, 3, 1], [5, 5, 6], [5, 6, 7], [6, 6, 3]],
+     "extra": [5, -7, 9, 0, 3, 3, 8, -1, 2], "k": 3, "chunksize": 1, "agg": "max", "agg_count": "min", "via": "cli"},
 ]
 
 
@@ -596,7 +603,20 @@ def agg_run(tmpdir, tag, case):
 
     def go():
         G.make_cooler(a, blocks, case["pixels"], case["symmetric"], extra=case["extra"])
-        cooler.coarsen_cooler(str(a), str(o), case["k"], chunksize=case["chunksize"], columns=want, agg={"w": case["agg"]})
+        agg = {"w": case["agg"]}
+        if case.get("agg_count", "sum") != "sum":
+            agg["count"] = case["agg_count"]
+        if case.get("via") == "cli":
+            from cooler.cli import cli
+            from click.testing import CliRunner
+            args = ["coarsen", "-k", str(case["k"]), "-c", str(case["chunksize"]), "-o", str(o)]
+            for c in want:
+                args += ["--field", c + (":agg=" + agg[c] if c in agg else "")]
+            r = CliRunner().invoke(cli, args + [str(a)])
+            if r.exit_code != 0:
+                raise RuntimeError(f"exit {r.exit_code}: {r.exception!r}")
+        else:
+            cooler.coarsen_cooler(str(a), str(o), case["k"], chunksize=case["chunksize"], columns=want, agg=agg)
         cols = [c for c in cooler.Cooler(str(o)).pixels()[:0].columns if c not in ("bin1_id", "bin2_id")]
         p = cooler.Cooler(str(o)).pixels()[:]
         keys = [[int(x), int(y)] for x, y in zip(p["bin1_id"].values, p["bin2_id"].values)]
@@ -610,7 +630,7 @@ def agg_run(tmpdir, tag, case):
         return [{"exception": st, "type": res}]
     cols, keys, vals = res
     px4 = [[p[0], p[1], p[2], w] for p, w in zip(case["pixels"], case["extra"])]
-    exp = {"count": G.oracle_pixels(blocks, px4, case["k"], "sum", 2),
+    exp = {"count": G.oracle_pixels(blocks, px4, case["k"], case.get("agg_count", "sum"), 2),
            "w": G.oracle_pixels(blocks, px4, case["k"], case["agg"], 3)}
     bad = []
     for c in want:
